@@ -2,6 +2,8 @@ import Jap.Core.PState
 import Jap.Lemmas.PState
 import Jap.Lemmas.PStateFacts
 import Jap.Gen.PState
+import Jap.Lemmas.PStateCtx
+import Jap.Lemmas.PStateCtxOps
 /-!
 C09 — a parser's answers do not depend on what it was asked before.
 
@@ -37,6 +39,11 @@ theorem tie_parser_context :
 /-- every write to a parser / action / group object made by parse-time code is known: a carrier of the model written
     by the function the model expects, or provably no carrier -/
 theorem tie_writes : writesKnown = true := by decide
+
+/-- every write to process-level state (names declared `global`, module-level containers mutated in a function, class
+    attributes, caching decorators — every function of every module of the package) is declaration-time, the memo of a
+    constant, or outside the operations considered; a new cache / global / class-level memo makes this fail -/
+theorem tie_proc_writes : procWritesKnown = true := by decide
 
 /-- the `finally` of parse_args is among the places where a pending `--print_config` request is removed
     (the deletion inside print_config_if_requested is not needed for the theorem: an exit passes through the `finally`) -/
@@ -214,5 +221,122 @@ theorem carriers_change :
     w.lastArgs (.root 0) = some 21 ∧ w.lastArgs (.sub 0 1) = some 22 ∧ w.shtabAdded 0 = true ∧
     w.parseKwargs = some { env := none, defaults := false } ∧ w.subclassArgParser = some .eph ∧
     w.dumpKwargs = some { skipValidation := true, skipNone := false } := by decide
+
+/-! ## value-carrying locations and bracketed code: any code, any fault point
+
+`Jap.PState.Ctx` (Core/PStateCtx.lean): locations hold VALUES; code is any nesting of writes that stay, brackets
+(`with cm(v): …`, reset in a `finally` or not — a column of the regenerated tables), `try/finally` regions that clear a
+location, reads that flow into the answer, branches on the value held, try/except, and `raise` anywhere.  The theorems
+hold for ALL such code obeying the discipline `okOp` (decidable on the syntax), all histories, all interleavings. -/
+section Ctx
+open Jap.PState.Ctx
+
+/-- the restored locations, as computed from the regenerated list of context variables: every context variable of the
+    package but the three unreset ones and current_mro; a new context variable, or one that disappears, changes the list -/
+theorem tie_restored_locs :
+    restoredLocs = ["allow_default_instance", "apply_config_skip", "class_instantiators", "current_path_dir", "defaults_cache",
+      "lenient_check", "load_value_mode", "nested_links", "parent_parser", "parent_parsers", "parser_capture", "previous_config",
+      "print_config_skip", "shtab_preambles", "shtab_prog", "shtab_shell", "single_subcommand", "sub_defaults",
+      "os.cwd", "argparse.Namespace", "parser.print_config", "sub.print_config"] := by decide
+
+/-- the context managers used by the skeletons of the public operations are, in the regenerated Gen/Brackets, brackets
+    whose reset sits in a `finally` and restores the variable's own earlier value; the three unreset ones have no reset -/
+theorem tie_skeleton_brackets :
+    ([("parser_context", "parent_parser"), ("parser_context", "lenient_check"), ("parser_context", "load_value_mode"),
+      ("parser_context", "defaults_cache"), ("parser_context", "nested_links"), ("parser_context", "class_instantiators"),
+      ("change_to_path_dir", "os.cwd"), ("change_to_path_dir", "current_path_dir"), ("patch_namespace", "argparse.Namespace"),
+      ("previous_config_context", "previous_config"), ("_ActionPrintConfig.skip_print_config", "print_config_skip"),
+      ("ActionTypeHint.sub_defaults_context", "sub_defaults"), ("_ActionSubCommands.not_single_subcommand", "single_subcommand"),
+      ("skip_apply_links", "apply_config_skip")].all fun mv => rowOf mv.1 mv.2 == some ("finally", "self")) = true ∧
+    ([("_ActionSubCommands.parse_kwargs_context", "parse_kwargs"), ("ActionTypeHint.subclass_arg_context", "subclass_arg_parser"),
+      ("dump_kwargs_context", "dump_kwargs")].all fun mv => rowOf mv.1 mv.2 == some ("none", "-")) = true := by decide
+
+/-- the skeletons of the public operations (parse_args over every argv of up to two elements of every kind, with and
+    without a sub-command; parse_object/string/path/env; get_defaults; validate; instantiate_classes; format_help; dump with
+    and without skip_default), built over the regenerated bracket table, obey the discipline: restored locations are
+    written only through `finally` brackets / inside the `finally` region of parse_args, every other location is read
+    only after it was written in the same operation -/
+theorem tie_public_ops_disciplined : ((publicOps 1).all (okOp restoredLocs)) = true := by decide +kernel
+
+/-- C09 for bracketed code: the answer (raised? + every value read from a location that outlives the call) of a disciplined
+    operation after ANY history of disciplined operations — of any length, each ending normally or by an exception —
+    is its answer on freshly initialised state -/
+theorem C09_ctx_history_independent (R : List String) (P : Prog) (hP : okOp R P = true) (hist : List Prog)
+    (hh : ∀ q ∈ hist, okOp R q = true) : answer P (runHist hist Ctx.init) = answer P Ctx.init :=
+  answer_after_history R P hP hist hh
+
+/-- … and every restored location holds its default again after the history -/
+theorem C09_ctx_restored_after_history (R : List String) (hist : List Prog) (hh : ∀ q ∈ hist, okOp R q = true) :
+    ∀ x ∈ R, runHist hist Ctx.init x = 0 :=
+  Ctx.inv_runHist R hist hh Ctx.init (Ctx.inv_init R)
+
+/-- bracket restoration for EVERY fault point: take disciplined operations and raise an exception before and/or after any
+    of their steps (inside any bracket body, handler, `finally` block, any number of places at once, `Faulted`); the
+    history of such faulted operations still leaves every restored location at its default, and the (faulted) operation
+    asked afterwards answers as on fresh state -/
+theorem C09_ctx_any_fault_point (R : List String) (P0 P : Prog) (hf : Faulted P0 P) (h0 : okOp R P0 = true) (hist : List Prog)
+    (hh : ∀ q ∈ hist, ∃ q0, Faulted q0 q ∧ okOp R q0 = true) :
+    answer P (runHist hist Ctx.init) = answer P Ctx.init ∧ ∀ x ∈ R, runHist hist Ctx.init x = 0 := by
+  have hh' : ∀ q ∈ hist, okOp R q = true := fun q hq => by
+    obtain ⟨q0, hfq, hq0⟩ := hh q hq
+    exact hfq.okOp hq0
+  exact ⟨answer_after_history R P (hf.okOp h0) hist hh', Ctx.inv_runHist R hist hh' Ctx.init (Ctx.inv_init R)⟩
+
+/-- the same for the operations of the library as they are now: histories over the skeletons of the public operations
+    (regenerated bracket table), each with exceptions raised at any of its points -/
+theorem C09_ctx_public_ops (P0 P : Prog) (hP : P0 ∈ publicOps 1) (hf : Faulted P0 P) (hist : List Prog)
+    (hh : ∀ q ∈ hist, ∃ q0 ∈ publicOps 1, Faulted q0 q) :
+    answer P (runHist hist Ctx.init) = answer P Ctx.init ∧ ∀ x ∈ restoredLocs, runHist hist Ctx.init x = 0 := by
+  have hall := List.all_eq_true.mp tie_public_ops_disciplined
+  exact C09_ctx_any_fault_point restoredLocs P0 P hf (hall P0 hP) hist fun q hq => by
+    obtain ⟨q0, hq0, hfq⟩ := hh q hq
+    exact ⟨q0, hfq, hall q0 hq0⟩
+
+/-! ### why each clause of the discipline is needed, and non-vacuity -/
+
+/-- a bracket whose reset is NOT in a `finally` (what dropping a try/finally does): an exception in its body leaves the
+    value behind, and a later read differs from the read on fresh state -/
+theorem ctx_reset_after_yield_leaks :
+    let leak : Prog := .bracket false "lenient_check" 1 .raise
+    okOp restoredLocs leak = false ∧
+    answer (.read "lenient_check") (runHist [leak] Ctx.init) ≠ answer (.read "lenient_check") Ctx.init := by decide
+
+/-- a read of a location that is set without reset, not preceded by a write in the same operation (seed C09-3A: the
+    setter of parse_kwargs reading the previous content): the answer depends on the history -/
+theorem ctx_stale_read_depends_on_history :
+    let stale : Prog := .seq (.read "parse_kwargs") (.set "parse_kwargs" 2)
+    okOp restoredLocs stale = false ∧
+    answer stale (runHist [parseArgs 1 1 7 [] none] Ctx.init) ≠ answer stale Ctx.init := by decide +kernel
+
+/-- `action.default` is rewritten by the help formatter and put back by straight-line code, not in a `finally`
+    (jsonargparse/_formatters.py, `_expand_help`): correct as long as nothing between the two statements raises —
+    with an exception there the rewritten default stays.  This is why `action.default` is not among the restored
+    locations of the theorems above (no input that makes the real statements in between raise is known). -/
+theorem ctx_help_default_not_fault_tolerant :
+    let faulted : Prog := .bracket false "action.default" 7 (.seq (.read "action.default") .raise)
+    Faulted (.bracket false "action.default" 7 (.read "action.default")) faulted ∧
+    (run faulted Ctx.init).env "action.default" = 7 := by
+  exact ⟨.bracket (.after (.refl _)), by decide⟩
+
+/-- non-vacuity: the unreset locations really change (so "nothing changes" is not what is proved), reads do flow into
+    the answer, a failing parse raises, and a faulted operation is a different program -/
+theorem ctx_nonvacuous :
+    (runHist [parseArgs 1 1 7 [.nested] (some [.typed])] Ctx.init) "parse_kwargs" = 3 ∧
+    (runHist [parseArgs 1 1 7 [.typed] none] Ctx.init) "subclass_arg_parser" = 1 ∧
+    (runHist [parseArgs 1 1 7 [.typed] none] Ctx.init) "parser.args" = 3 ∧
+    (runHist [dump 5 1 1 false] Ctx.init) "dump_kwargs" = 1 ∧
+    (answer (parseArgs 1 1 7 [.bad] none) Ctx.init).1 = true ∧
+    (answer (parseArgs 1 1 7 [.printConfig 5] none) Ctx.init).1 = true ∧
+    (answer (parseArgs 1 1 7 [.typed] none) Ctx.init).1 = false ∧
+    (answer (parseArgs 1 1 7 [.typed] none) Ctx.init).2.length > 10 := by decide +kernel
+
+/-- a pending request stored by a parse that then fails is gone afterwards: the `finally` region of parse_args
+    (the value-carrying counterpart of `F12_repaired`) -/
+theorem ctx_pending_request_cleared :
+    (runHist [parseArgs 1 1 7 [.printConfig 5, .bad] none] Ctx.init) "parser.print_config" = 0 ∧
+    (run (seqs [.set "parser.args" 3, .tryCatch (seqs [.set "parser.print_config" 5, .raise]) .raise]) Ctx.init).env "parser.print_config" = 5 := by
+  decide +kernel
+
+end Ctx
 
 end Jap.Props.C09
